@@ -194,6 +194,24 @@ def cosim_ops(ctx: Ctx, rp, k: int):
             ctx.count("cosim_moves_refused")
             return rp
         return res.unwrap()
+    if kind == "change_station_membership":
+        # the operator hands a station to a fleet, opens it to one more, or makes it public again (Station.set_membership +
+        # modify_entities), preferably one where vehicles are waiting or charging
+        fids = sorted(f for f in rp.e.fleet_ids if f is not None)
+        sids = rp.s.get_station_ids()
+        if not sids:
+            return rp
+        used = sorted({getattr(v.vehicle_state, "station_id", None) for v in rp.s.vehicles.values() if type(v.vehicle_state).__name__ in ("ChargeQueueing", "ChargingStation")} - {None})
+        sid = r.choice(used) if used and r.random() < 0.75 else r.choice(sids)
+        st = rp.s.stations[sid]
+        new_m = r.choice([(), tuple(r.sample(fids, 1)) if fids else ("fleet_x",), tuple(sorted(set(st.membership.memberships) | set(r.sample(fids, 1)))) if fids else ("fleet_x", "fleet_y")])
+        res = modify_entities_safe(rp, [st.set_membership(new_m)])
+        if isinstance(res, Failure):
+            return rp
+        ctx.count("cosim_change_station_membership")
+        if sid in used:
+            ctx.count("cosim_change_membership_of_station_in_use")
+        return res.unwrap()
     if kind == "change_request_membership":
         # the operator opens a waiting request to one more fleet (Request.add_membership + modify_entities), preferably
         # one that already has a vehicle on its way
